@@ -149,6 +149,23 @@ class Loose(object):
         return self._rec.bundle.valid_qualified_name(x)
 
 
+def inspect_records(doc):
+    """Calls the read-only public accessors of every record (as a user inspecting a document would
+    before exporting it).  They must not change what any writer emits afterwards."""
+    for c in [doc] + list(doc.bundles):
+        for r in c.get_records():
+            try:
+                r.args, r.formal_attributes, r.extra_attributes, r.attributes
+                repr(r), str(r), hash(r), r.label, r.get_asserted_types(), r.identifier
+                r.get_attribute("prov:type"), r.is_element(), r.is_relation()
+                if hasattr(r, "get_startTime"):
+                    r.get_startTime(), r.get_endTime()
+                if hasattr(r, "value"):
+                    r.value
+            except Exception:
+                pass
+
+
 class NoSuchObject(Exception):
     pass
 
@@ -443,6 +460,8 @@ class World(object):
             doc = self.h[a["h"]]
 
             def run():
+                if self.salt % 2:
+                    inspect_records(doc)      # read-only public accessors, used before writing
                 self.rt = roundtrip.run_rt(doc, a["fmt"], a["opts"], self.voc)
                 return none
             return run
